@@ -174,7 +174,8 @@ def run(case: dict, *, count_only: bool = False) -> Obs:
             s._pending_hello = None
             if not msgs:
                 return
-            data = b"".join(s.encode(m) for m in msgs) + encode_frames(s, hello_extra)
+            # (hello_replace: the extra frames arrive INSTEAD of the hello answer, at the instant it was due)
+            data = (b"" if case.get("hello_replace") else b"".join(s.encode(m) for m in msgs)) + encode_frames(s, hello_extra)
             s.send_raw(data, cuts=case.get("hello_cuts"))
             if hello_then:
                 tr_ = s.transport
